@@ -35,7 +35,11 @@ pub fn prepare_links(blocks: &mut [Block], shapes: &[u8]) -> usize {
                         };
                         if !gen::inlines_visible(kids) {
                             *deep += 1;
-                            *kids = match k % 5 {
+                            *kids = match k % 8 {
+                                // non-ASCII white space only
+                                5 => vec![Inline::Raw("&nbsp;".into())],
+                                6 => vec![Inline::Raw("&#x3000;".into())],
+                                7 => vec![Inline::Raw("&#x2009;&nbsp;".into())],
                                 0 => vec![],
                                 1 => vec![Inline::Raw(" ".into())],
                                 2 => vec![Inline::Br],
